@@ -563,4 +563,30 @@ theorem maxBy_spec {l : List Rat} {s : Rat} (h : maxBy l = some s) : s ∈ l ∧
       · exact h1
       · exact h2 y hy
 
+/-! ### the driver's admissibility test decides the contract of `binary_search_by` -/
+
+theorem searchAdmissibleB_iff {α : Type} [Add α] [Sub α] [Mul α] [Div α] [Scalar α]
+    (d : Dist α) (p : α) (x : Nat) : d.searchAdmissibleB p x = true ↔ d.SearchAdmissible p x := by
+  unfold Dist.searchAdmissibleB Dist.SearchAdmissible
+  simp only [Bool.and_eq_true, Bool.or_eq_true, decide_eq_true_eq, List.all_eq_true, List.mem_range]
+  constructor
+  · rintro ⟨h1, h2⟩
+    refine ⟨h1, ?_⟩
+    rcases h2 with h2 | ⟨h3, h4⟩
+    · exact Or.inl h2
+    · right
+      refine ⟨h3, fun j hxj hj => ?_⟩
+      rcases h4 j hj with h5 | h5
+      · omega
+      · exact h5
+  · rintro ⟨h1, h2⟩
+    refine ⟨h1, ?_⟩
+    rcases h2 with h2 | ⟨h3, h4⟩
+    · exact Or.inl h2
+    · right
+      refine ⟨h3, fun j hj => ?_⟩
+      by_cases hjx : j < x
+      · exact Or.inl hjx
+      · exact Or.inr (h4 j (by omega) hj)
+
 end LMV.Dist
